@@ -505,7 +505,7 @@ def unary_tag(trait, t):
 # ------------------------------------------------------------------------------------------------ sampling sizes
 SIZES = {
     # unary: all depth-0 types always; n1/n2 sampled depth-1/depth-2 types per trait (None = all)
-    "quick": {"u_n1": 60, "u_n2": 60, "c_n1": 40, "c_n2": 40, "pairs": 300, "cpairs": 150, "ratio_n": 14, "lists": 6},
+    "quick": {"u_n1": 40, "u_n2": 40, "c_n1": 30, "c_n2": 30, "pairs": 200, "cpairs": 120, "ratio_n": 14, "lists": 6},
     "thorough": {"u_n1": None, "u_n2": 900, "c_n1": None, "c_n2": 900, "pairs": 2500, "cpairs": 1500, "ratio_n": 44, "lists": 40},
 }
 
